@@ -1,9 +1,109 @@
 import DspVerif.Driver.Proto
-/-! driver handlers for C07 (stub: no correspondence cases handled yet) -/
+import DspVerif.Model.Fir
+/-! driver handlers for C07: `FirFilter`, `FftFilter`, `xcorr`, `MAFilter` models at `Float`.
+
+The models of `FftFilter` and `xcorr` take the transform as a parameter; the driver instantiates it with the
+plain radix-2 decimation-in-time FFT below (all lengths used by these two kernels are powers of two).  It is a
+*different* algorithm from the library's plan tree, so the FFT based tags are compared with a tolerance. -/
 namespace Dsp.Driver
-open Dsp.Proto
+open Dsp.Proto Dsp.Fir
+
+/-- radix-2 DIT FFT of length `2^lg`; `sgn = -1` forward, `+1` inverse (unnormalised) -/
+def fftPow2 (sgn : Float) : Nat → Array (Cx Float) → Array (Cx Float)
+  | 0, a => a
+  | lg + 1, a =>
+    let half := 2 ^ lg
+    let e := fftPow2 sgn lg (Array.ofFn (n := half) fun i => a.getD (2 * i.val) ⟨0, 0⟩)
+    let o := fftPow2 sgn lg (Array.ofFn (n := half) fun i => a.getD (2 * i.val + 1) ⟨0, 0⟩)
+    Array.ofFn (n := 2 * half) fun k =>
+      let j := k.val % half
+      let th := 2.0 * 3.141592653589793238463 * j.toFloat / (2 * half).toFloat
+      let w : Cx Float := ⟨Float.cos th, sgn * Float.sin th⟩
+      let t := w * o.getD j ⟨0, 0⟩
+      if k.val < half then e.getD j ⟨0, 0⟩ + t else e.getD j ⟨0, 0⟩ - t
+
+def fftF (a : Array (Cx Float)) : Array (Cx Float) := fftPow2 (-1.0) (Nat.log2 a.size) a
+def ifftF (a : Array (Cx Float)) : Array (Cx Float) :=
+  (fftPow2 1.0 (Nat.log2 a.size) a).map fun z => Cx.divr z a.size.toFloat
+
+/-- every `stride`-th element (index 0, stride, 2·stride, …) -/
+def decim {γ : Type} [Inhabited γ] (a : Array γ) (stride : Nat) : Array γ :=
+  Array.ofFn (n := (a.size + stride - 1) / stride) fun i => a[i.val * stride]!
+
+def takeFramesF : Nat → List String → Option (List (Array Float) × List String)
+  | 0, r => some ([], r)
+  | n + 1, r => do
+    let (x, r) ← takeFloats r
+    let (xs, r) ← takeFramesF n r
+    pure (x :: xs, r)
+
+def takeFramesC : Nat → List String → Option (List (Array (Cx Float)) × List String)
+  | 0, r => some ([], r)
+  | n + 1, r => do
+    let (x, r) ← takeCxs r
+    let (xs, r) ← takeFramesC n r
+    pure (x :: xs, r)
+
+/-- `‖h‖₂·‖x‖₂` over all frames: the scale token of the FFT based tags -/
+def scaleR (h : Array Float) (frames : List (Array Float)) : Float :=
+  let ss (a : Array Float) := a.foldl (fun s v => s + v * v) 0.0
+  Float.sqrt (ss h) * Float.sqrt (frames.foldl (fun s f => s + ss f) 0.0)
+def scaleC (h : Array (Cx Float)) (frames : List (Array (Cx Float))) : Float :=
+  let ss (a : Array (Cx Float)) := a.foldl (fun s v => s + (v.re * v.re + v.im * v.im)) 0.0
+  Float.sqrt (ss h) * Float.sqrt (frames.foldl (fun s f => s + ss f) 0.0)
+
+/-- thread a processor state through the frames of one case, formatting every frame's output -/
+def runFrames {σ γ : Type} (step : σ → γ → σ × String) (s : σ) (frames : List γ) : String :=
+  let r := frames.foldl (fun (acc : σ × List String) fr => let q := step acc.1 fr; (q.1, q.2 :: acc.2)) (s, [])
+  String.intercalate " " r.2.reverse
 
 def h07 : List String → Option String
+  | "firR" :: stride :: rest => do
+    let stride ← stride.toNat?
+    let (h, rest) ← takeFloats rest
+    let nf ← (← rest.head?).toNat?
+    let (frames, _) ← takeFramesF nf rest.tail
+    some (runFrames (fun s x => let r := firProcessR s x; (r.1, fmtFloatArr (decim r.2 stride))) (firInitR h) frames)
+  | "firC" :: stride :: rest => do
+    let stride ← stride.toNat?
+    let (h, rest) ← takeCxs rest
+    let nf ← (← rest.head?).toNat?
+    let (frames, _) ← takeFramesC nf rest.tail
+    some (runFrames (fun s x => let r := firProcessC s x; (r.1, fmtCxArr (decim r.2 stride))) (firInitC h) frames)
+  | "fftR" :: stride :: rest => do
+    let stride ← stride.toNat?
+    let (h, rest) ← takeFloats rest
+    let nf ← (← rest.head?).toNat?
+    let (frames, _) ← takeFramesF nf rest.tail
+    let s0 := fftInitR fftF h
+    some (toString s0.n ++ " " ++ fmtF (scaleR h frames) ++ " " ++
+      runFrames (fun s x => let r := fftProcessR fftF ifftF s x; (r.1, fmtFloatArr (decim r.2 stride))) s0 frames)
+  | "fftC" :: stride :: rest => do
+    let stride ← stride.toNat?
+    let (h, rest) ← takeCxs rest
+    let nf ← (← rest.head?).toNat?
+    let (frames, _) ← takeFramesC nf rest.tail
+    let s0 := fftInitC fftF h
+    some (toString s0.n ++ " " ++ fmtF (scaleC h frames) ++ " " ++
+      runFrames (fun s x => let r := fftProcessC fftF ifftF s x; (r.1, fmtCxArr (decim r.2 stride))) s0 frames)
+  | "xcR" :: rest => do
+    let (a, rest) ← takeFloats rest
+    let (b, _) ← takeFloats rest
+    some (fmtFloatArr (xcorrR fftF ifftF a b))
+  | "xcC" :: rest => do
+    let (a, rest) ← takeCxs rest
+    let (b, _) ← takeCxs rest
+    some (fmtCxArr (xcorrC fftF ifftF a b))
+  | "maR" :: n :: nf :: rest => do
+    let n ← n.toNat?
+    let nf ← nf.toNat?
+    let (frames, _) ← takeFramesF nf rest
+    some (runFrames (fun s x => let r := maProcessR s x; (r.1, fmtFloatArr r.2)) (maInitR n) frames)
+  | "maC" :: n :: nf :: rest => do
+    let n ← n.toNat?
+    let nf ← nf.toNat?
+    let (frames, _) ← takeFramesC nf rest
+    some (runFrames (fun s x => let r := maProcessC s x; (r.1, fmtCxArr r.2)) (maInitC n) frames)
   | _ => none
 
 end Dsp.Driver
